@@ -277,6 +277,15 @@ def rule_G5(ctx):
                     for (cn, root, cs) in edges:
                         if root is not None and (root == selfname or E.resolve_alias(cur, root, selfname) == selfname):
                             work.append(cn)
+                # ... and does not ALSO have a path around the mirror: the absolute-end helpers (add at / cut from the most or least
+                # significant end whatever the mode) belong to the variants and the whole-value operators, not to an operation that
+                # takes a position or is defined relative to one end
+                absolute = [x for x in own_walk(f.node) if isinstance(x, ast.Call) and isinstance(x.func, ast.Attribute) and ast.unparse(x.func.value) == 'self'
+                            and x.func.attr in ('_addright', '_addleft', '_truncateleft', '_truncateright')]
+                if absolute and f.name not in _variant_names(m):
+                    r.fail(f.key, absolute[0], f"{c}.{op} calls the absolute-end helper {absolute[0].func.attr} directly: on that path the operation is not "
+                           'mirrored under options.lsb0 (position len(self) is the most significant end there)', loc=f.loc(absolute[0]), extra={'ctx': c})
+                    continue
                 if found:
                     r.ok(f'{c}.{op}', {'instance': f'{c}.{op}', 'reaches_slot': sorted(slots)})
                 else:
